@@ -138,9 +138,9 @@ func runC16(a *A) {
 				if ph, ok := v.(*ssa.Phi); ok && cs.m && isBoolFlagPhi(ph) {
 					return F
 				}
-				if bo, ok := v.(*ssa.BinOp); ok && cs.m && bo.Op == token.EQL && isNilConst(bo.Y) {
+				if bo, ok := v.(*ssa.BinOp); ok && cs.m && (bo.Op == token.EQL || bo.Op == token.NEQ) && isNilConst(bo.Y) {
 					if _, isIface := bo.X.Type().Underlying().(*types.Interface); isIface {
-						return F // no key component is NULL
+						return tri(bo.Op == token.NEQ) // no key component is NULL
 					}
 				}
 				if bo, ok := v.(*ssa.BinOp); ok && (bo.Op == token.EQL || bo.Op == token.NEQ) {
